@@ -200,8 +200,11 @@ func (b *SimBucket) List(ctx context.Context, prefix string) (simpleblob.BlobLis
 		if !strings.HasPrefix(name, prefix) {
 			continue
 		}
-		if o.storedAt > asOf {
-			continue // not yet visible in this (stale) listing
+		if o.storedAt > asOf && !ownObject(t, name) {
+			// Not yet visible in this (stale) listing. A node always sees
+			// the objects of its own instance name (read-your-writes: it
+			// talks to the site it wrote to; the lag is between sites).
+			continue
 		}
 		bl = append(bl, simpleblob.Blob{Name: name, Size: int64(len(o.data))})
 	}
@@ -324,6 +327,14 @@ func (b *SimBucket) Delete(ctx context.Context, name string) error {
 	}
 	b.record(t, BucketOp{Op: "delete", Name: name, Applied: applied})
 	return nil
+}
+
+// ownObject reports if the object name belongs to the calling node's instance.
+func ownObject(t *Task, name string) bool {
+	if t == nil || t.Node == nil {
+		return false
+	}
+	return strings.HasPrefix(name, DBName+"__"+t.Node.Name+"__")
 }
 
 // --- driver-side access (no parking, no faults) ---
